@@ -25,6 +25,19 @@ from harness.common import Ctx, coq_list, coq_Q, coq_Z, coq_bool
 SEP = "-__-"
 DEN = 1024
 
+
+def fr(x):
+    """A probability / threshold of a case: int k means k/1024, [num, den] an exact rational (the
+    exact value of an engine float, used for thresholds given as match weights)."""
+    return Fraction(x, DEN) if isinstance(x, int) else Fraction(int(x[0]), int(x[1]))
+
+
+def weight_to_prob(w):
+    """The implementation's own conversion of a match-weight threshold (exact value of its float)."""
+    from splink.internals.misc import bayes_factor_to_prob, match_weight_to_bayes_factor
+    f = Fraction(bayes_factor_to_prob(match_weight_to_bayes_factor(w)))
+    return [f.numerator, f.denominator]
+
 HEADER = """From Coq Require Import List Bool ZArith QArith.
 From Splinkv Require Import Model.OneToOne.
 Import ListNotations.
@@ -144,12 +157,12 @@ def gen_case(rng, backend, ties: bool, dfs=None):
 def has_dup_pairs(case):
     """The same pair of records listed twice with the same probability (never produced by
     predict(); the tie-break of the ORDER BY cannot separate such rows)."""
-    keys = [(min(i, j), max(i, j), p) for i, j, p in case["edges"]]
+    keys = [(min(i, j), max(i, j), fr(p)) for i, j, p in case["edges"]]
     return len(set(keys)) != len(keys)
 
 
 def tie_free(case):
-    ps = [p for _, _, p in case["edges"]]
+    ps = [fr(p) for _, _, p in case["edges"]]
     return len(set(ps)) == len(ps)
 
 
@@ -190,11 +203,9 @@ def run_impl(case):
     pred = pd.DataFrame({
         "unique_id_l": [nodes[i][1] for i, _, _ in e], "unique_id_r": [nodes[j][1] for _, j, _ in e],
         "source_dataset_l": [nodes[i][0] for i, _, _ in e], "source_dataset_r": [nodes[j][0] for _, j, _ in e],
-        "match_probability": [p / DEN for _, _, p in e]})
+        "match_probability": [float(fr(p)) for _, _, p in e]})
     dp = lk.table_management.register_table_predict(pred, overwrite=True)
-    out = lk.clustering.cluster_using_single_best_links(
-        dp, duplicate_free_datasets=list(case["dfs"]),
-        threshold_match_probability=None if case.get("no_threshold") else case["thr"] / DEN)
+    out = lk.clustering.cluster_using_single_best_links(dp, duplicate_free_datasets=list(case["dfs"]), **threshold_kwargs(case))
     final = [(r["cluster_id"], r["source_dataset"], r["unique_id"]) for r in out.as_record_dict()]
     return trace, final
 
@@ -243,6 +254,14 @@ def order_mode(sql):
     return modes.pop()
 
 
+def threshold_kwargs(case):
+    if case.get("no_threshold"):
+        return {}
+    if case.get("thr_weight") is not None:
+        return {"threshold_match_weight": case["thr_weight"]}
+    return {"threshold_match_probability": float(fr(case["thr"]))}
+
+
 def ranks(case):
     keys = sorted(composite(ds, u) for ds, u in case["nodes"])
     assert len(set(keys)) == len(keys)
@@ -260,7 +279,9 @@ def py_candidates(case, rep):
         if ds in dfs:
             flags.setdefault(c, set()).add(ds)
     rows = []
+    thr = fr(thr)
     for idx, (i, j, p) in enumerate(case["edges"]):
+        p = fr(p)
         if p < thr:
             continue
         for rev, (a, b) in enumerate(((i, j), (j, i))):
@@ -328,9 +349,10 @@ def oracle(case, final):
             k = [m for m in ms if m[0] == ds]
             if len(k) > 1:
                 problems.append(("duplicate_free", {"cluster": c, "dataset": ds, "records": k}))
+    thr = fr(thr)
     adj = {}
     for i, j, p in case["edges"]:
-        if p >= thr:
+        if fr(p) >= thr:
             a, b = nodes[i], nodes[j]
             adj.setdefault(a, set()).add(b)
             adj.setdefault(b, set()).add(a)
@@ -355,11 +377,11 @@ def oracle(case, final):
     if tie_free(case):
         for i, j, p in case["edges"]:
             a, b = nodes[i], nodes[j]
-            if p >= thr and cl[a] != cl[b]:
+            if fr(p) >= thr and cl[a] != cl[b]:
                 da = {m[0] for m in members[cl[a]]} & dfs
                 db = {m[0] for m in members[cl[b]]} & dfs
                 if not (da & db):
-                    problems.append(("maximality", {"edge": [a, b, p / DEN], "clusters": [cl[a], cl[b]]}))
+                    problems.append(("maximality", {"edge": [a, b, float(fr(p))], "clusters": [cl[a], cl[b]]}))
     return problems
 
 
@@ -410,14 +432,14 @@ def case_term(case, trace, final):
         rep = {idx_of_rank[a]: idx_of_rank[b] for a, b in tb.items()}
     ds_idx = {ds: i for i, ds in enumerate(case["names"])}
     cnodes = coq_list([f"({coq_Z(rk[composite(ds, u)])}, {coq_Z(ds_idx[ds])})" for ds, u in nodes], "node")
-    cedges = coq_list([f"({coq_Z(rk[composite(*nodes[i])])}, {coq_Z(rk[composite(*nodes[j])])}, {coq_Q(Fraction(p, DEN))})"
+    cedges = coq_list([f"({coq_Z(rk[composite(*nodes[i])])}, {coq_Z(rk[composite(*nodes[j])])}, {coq_Q(fr(p))})"
                        for i, j, p in case["edges"]], "edge")
     cdfs = coq_list([coq_Z(ds_idx[d]) for d in case["dfs"]], "Z")
     ctr = coq_list(["(" + coq_list([f"({coq_Z(a)}, {coq_Z(b)})" for a, b in sorted(tb.items())], "(Z * Z)") + ", " + coq_bool(c) + ")"
                     for tb, c in zip(tbls, chk)], "(list (Z * Z) * bool)")
     om = case.get("_order_modes", [])
     mode = 1 if tie_free(case) else (2 if om == ["tiebreak"] and not has_dup_pairs(case) else 0)
-    term = f"({cdfs}, {coq_Q(Fraction(case['thr'], DEN))}, {cnodes}, {cedges}, {mode}%nat, {ctr})"
+    term = f"({cdfs}, {coq_Q(fr(case['thr']))}, {cnodes}, {cedges}, {mode}%nat, {ctr})"
     return {"term": term, "tables": tbls, "checked_steps": chk, "rank": rk, "mode": mode}, problems
 
 
@@ -545,7 +567,7 @@ def correspondence(ctx: Ctx):
                       and any(ds in case["dfs"] for ds, _ in case["nodes"]))
         ctx.count_case(json.dumps(case, sort_keys=True), nontrivial,
                        {"backend": case["backend"], "nodes": len(case["nodes"]), "edges": len(case["edges"]),
-                        "duplicate_free": case["dfs"], "threshold": case["thr"] / DEN, "iterations": len(trace), "tie_free": tf})
+                        "duplicate_free": case["dfs"], "threshold": float(fr(case["thr"])), "threshold_as_weight": case.get("thr_weight"), "iterations": len(trace), "tie_free": tf})
         ctx.hist("backend", case["backend"])
         ctx.hist("tie_free", tf)
         ctx.hist("n_datasets", len(case["names"]))
